@@ -364,7 +364,11 @@ func evalC07(c *engine.Case) engine.Verdict {
 			v.Failf("Call failed: %.200s", o.ErrS)
 			break
 		}
-		switch x.Shape {
+		shape := x.Shape
+		if shape == 7 {
+			shape = []int{4, 2, 4}[x.Variant]
+		}
+		switch shape {
 		case 3, 5, 6:
 			for _, ev := range o.Events {
 				if ev.Func != engine.TargetID {
@@ -396,8 +400,17 @@ func evalC07(c *engine.Case) engine.Verdict {
 				}
 				found = true
 				for _, a := range ev.Args {
+					if x.CtxType > 0 && !a.L.Named() && a.L.Type == x.CtxType-1 {
+						continue // the converter's other, "context" input
+					}
 					if !a.L.Named() && a.Tok != x.NameInput {
 						v.Failf("the converter f%d (which also takes the named option %q) converted #%d; the supplied value whose name equals the parameter's name is #%d", ev.Func, ev.Args[0].L.Name, a.Tok, x.NameInput)
+						if x.Shape == 7 && x.Variant == 2 {
+							// open finding KF-C07-3 (known-findings.json),
+							// identified by the shape of the case; only this
+							// kind of failure is covered
+							v.Known = "KF-C07-3"
+						}
 					}
 				}
 			}
@@ -658,9 +671,85 @@ func genC07Side(g engine.G) *engine.Case {
 	return c
 }
 
+// genC07Ranks: shape 7 -- several names are being produced at once, and the
+// nearest one decides.
+//
+// Variant 0: target(n0 T) <- convT(n0 S named, n1 Y named) <- convY(S
+// type-only, m M named) -> n1 Y, supplied n0:S, n1:S, m:M. convY's type-only
+// S is reached by a nested search while BOTH n0 (the target's parameter) and
+// n1 (convT's parameter) are being produced: n1 is the nearer one, the S
+// named n1 is the one converted.
+//
+// Variant 1: target(n0 T) <- convT(S type-only [supplied], U type-only), and U
+// can be made by a converter that takes n0 EXPLICITLY (from S2) or by one that
+// takes another name explicitly: while n0 is being produced the converter that
+// uses that name is the one executed (the second clause, one level down).
+func genC07Ranks(g engine.G) *engine.Case {
+	names := rapidPerm(g, []string{"a", "b", "cd", "ef"})
+	n0, n1 := names[0], names[1]
+	perm := rapidPerm(g, []int{0, 1, 2, 3, 4, 5})
+	sf := func() string { return engine.Pick(g, []string{engine.FormStruct, engine.FormPtr}) }
+	sc := &engine.Scenario{}
+	// (variant 1 is not generated: it goes beyond the letter of C07 -- the
+	// competitor there takes ANOTHER name explicitly and what is produced is a
+	// type-only input, not the parameter; audit/round7 finding 3)
+	x := C07Case{Shape: 7, Variant: 0}
+	if g.Pct(40) {
+		// Variant 2: target(n0 T) <- convT(S type-only [supplied], n1 Y named)
+		// <- convY(S, W) -> n1 Y, supplied n0:W, n1:W, S. The converter that
+		// makes n1 lies ON the cheapest path to n0 (the discount for n0's own
+		// name makes the route through the W named n0 cheaper than anything
+		// else), so its W is chosen for n0, not for n1: OPEN KNOWN FINDING
+		// KF-C07-3.
+		x.Variant = 2
+		tS, tY, tW, tT := perm[0], perm[1], perm[2], perm[3]
+		sc.Inputs = rapidPerm(g, []engine.Input{
+			{L: engine.Label{Name: n0, Type: tW, Dyn: tW}, Tok: 1},
+			{L: engine.Label{Name: n1, Type: tW, Dyn: tW}, Tok: 2},
+			{L: engine.Label{Type: tS, Dyn: tS}, Tok: 9}})
+		convT := engine.FuncSpec{ID: 1, In: rapidPerm(g, []engine.Label{{Type: tS, Dyn: tS}, {Name: n1, Type: tY, Dyn: tY}}), InForm: sf(), Out: []engine.Label{{Type: tT, Dyn: tT}}, OutForm: engine.GenForm(g)}
+		convY := engine.FuncSpec{ID: 2, In: rapidPerm(g, []engine.Label{{Type: tS, Dyn: tS}, {Type: tW, Dyn: tW}}), InForm: engine.GenForm(g), Out: []engine.Label{{Name: n1, Type: tY, Dyn: tY}}, OutForm: sf()}
+		sc.Convs = rapidPerm(g, []engine.FuncSpec{convT, convY})
+		sc.Target = engine.FuncSpec{ID: engine.TargetID, In: []engine.Label{{Name: n0, Type: tT, Dyn: tT}}, InForm: sf(), OutForm: engine.FormPos}
+		x.FirstConv, x.NameInput, x.CtxType = 2, 2, tS+1
+		c := &engine.Case{Sc: sc, Reps: 4}
+		c.SetX(&x)
+		return c
+	}
+	if x.Variant == 0 {
+		tS, tY, tM, tT := perm[0], perm[1], perm[2], perm[3]
+		sc.Inputs = rapidPerm(g, []engine.Input{
+			{L: engine.Label{Name: n0, Type: tS, Dyn: tS}, Tok: 1},
+			{L: engine.Label{Name: n1, Type: tS, Dyn: tS}, Tok: 2},
+			{L: engine.Label{Name: "q", Type: tM, Dyn: tM}, Tok: 9}})
+		convT := engine.FuncSpec{ID: 1, In: rapidPerm(g, []engine.Label{{Name: n0, Type: tS, Dyn: tS}, {Name: n1, Type: tY, Dyn: tY}}), InForm: sf(), Out: []engine.Label{{Type: tT, Dyn: tT}}, OutForm: engine.GenForm(g)}
+		convY := engine.FuncSpec{ID: 2, In: rapidPerm(g, []engine.Label{{Type: tS, Dyn: tS}, {Name: "q", Type: tM, Dyn: tM}}), InForm: sf(), Out: []engine.Label{{Name: n1, Type: tY, Dyn: tY}}, OutForm: sf()}
+		sc.Convs = rapidPerm(g, []engine.FuncSpec{convT, convY})
+		sc.Target = engine.FuncSpec{ID: engine.TargetID, In: []engine.Label{{Name: n0, Type: tT, Dyn: tT}}, InForm: sf(), OutForm: engine.FormPos}
+		x.FirstConv, x.NameInput = 2, 2
+	} else {
+		tS, tU, tS2, tT := perm[0], perm[1], perm[2], perm[3]
+		sc.Inputs = rapidPerm(g, []engine.Input{
+			{L: engine.Label{Type: tS, Dyn: tS}, Tok: 9},
+			{L: engine.Label{Name: n0, Type: tS2, Dyn: tS2}, Tok: 1},
+			{L: engine.Label{Name: n1, Type: tS2, Dyn: tS2}, Tok: 2}})
+		convT := engine.FuncSpec{ID: 1, In: rapidPerm(g, []engine.Label{{Type: tS, Dyn: tS}, {Type: tU, Dyn: tU}}), InForm: engine.GenForm(g), Out: []engine.Label{{Type: tT, Dyn: tT}}, OutForm: engine.GenForm(g)}
+		convA := engine.FuncSpec{ID: 2, In: []engine.Label{{Name: n0, Type: tS2, Dyn: tS2}}, InForm: sf(), Out: []engine.Label{{Type: tU, Dyn: tU}}, OutForm: engine.GenForm(g)}
+		convB := engine.FuncSpec{ID: 3, In: []engine.Label{{Name: n1, Type: tS2, Dyn: tS2}}, InForm: sf(), Out: []engine.Label{{Type: tU, Dyn: tU}}, OutForm: engine.GenForm(g)}
+		sc.Convs = rapidPerm(g, []engine.FuncSpec{convT, convA, convB})
+		sc.Target = engine.FuncSpec{ID: engine.TargetID, In: []engine.Label{{Name: n0, Type: tT, Dyn: tT}}, InForm: sf(), OutForm: engine.FormPos}
+		x.NamedConv, x.FirstConv, x.NameInput = 2, 3, 1
+	}
+	c := &engine.Case{Sc: sc, Reps: 8}
+	c.SetX(&x)
+	return c
+}
+
 func genC07(g engine.G) *engine.Case {
 	switch k := g.Int(0, 99); {
-	case k < 4:
+	case k < 3:
+		return genC07Ranks(g)
+	case k < 5:
 		return genC07Side(g)
 	case k < 12:
 		return genC07Multi(g)
